@@ -815,7 +815,7 @@ def model_hist(case):
 
 def build_branch(i, sp, log, probe=None):
     """the branch as it is given to Split/Zip: an explicit sequence object, or (form "tuple") a plain tuple of
-    elements that _get_seq_with_type converts itself"""
+    elements that Split / Zip convert themselves"""
     import lena.core
     kind = sp["kind"]
     mark = Mark(i, log)
